@@ -59,7 +59,7 @@ use std::time::Duration;
 pub static INFO: PropInfo = PropInfo {
     id: "C11",
     level: "exploration",
-    rule: "one evaluation = one simulated star session: one server, 2-8 initial clients with independent fault profiles per client and direction, clients joining (fresh id) and leaving (remove_connection / disconnect / client-side disconnect) at random ticks, unicast both ways, broadcast_message and broadcast_message_except on all channel kinds, 0-2 hostile clients whose ids receive random, mutated, forged and replayed foreign datagrams, one client with one ordered server->client message dropped forever (head-of-line stall); then the links heal and a deadline computed from the undisturbed clients only is awaited. In a third of the runs one broadcast goes out although one undisturbed target's reliable send budget is exhausted at the library (can_send_message false): that target is dropped by the server (the documented consequence, from then on a client that was told to leave) or is owed the message like everybody else. Oracle: obtained only if addressed / at most once / only under the sender's id (unconditional), exactly-once delivery of every unicast and broadcast to every undisturbed client that stayed connected, no foreign-cause disconnect of an undisturbed client, C01/C02 oracles per undisturbed connection. Non-trivial = at least one broadcast and one broadcast_except were judged for delivery, at least one disturbance (hostile datagram accepted, leave, or stall) happened and link faults occurred; distinct = distinct event-log fingerprints. One run in 10 is a HOST-PLAYER run instead (c11_host.rs): one remote and one LOCAL client (new_local_client / process_local_client / disconnect_local_client), channel lists that differ between the directions in 3 of 4 runs (disjoint ids, same ids with rotated kinds, fewer channels upstream), lossless exchange, unicasts, broadcasts and upstream messages of 24..5000 bytes; in 2 of 3 runs the local client disconnects itself, is closed with disconnect_local_client and opened again under the same id; every obtained message must have been addressed to that client on that channel (once on reliable channels, in order on ordered ones), nobody may end up disconnected, the closed local session must be gone, and after 30 quiet ticks every reliable message must have been obtained.",
+    rule: "one evaluation = one simulated star session: one server, 2-8 initial clients with independent fault profiles per client and direction, clients joining (fresh id) and leaving (remove_connection / disconnect / client-side disconnect) at random ticks, unicast both ways, broadcast_message and broadcast_message_except on all channel kinds, 0-2 hostile clients whose ids receive random, mutated, forged and replayed foreign datagrams, one client with one ordered server->client message dropped forever (head-of-line stall); then the links heal and a deadline computed from the undisturbed clients only is awaited. In a third of the runs one broadcast goes out although one undisturbed target's reliable send budget is exhausted at the library (can_send_message false): that target is dropped by the server (the documented consequence, from then on a client that was told to leave) or is owed the message like everybody else. Now and then add_connection is called again for an id that is connected (documented as a no-op: the live connection is not disturbed). Oracle: obtained only if addressed / at most once / only under the sender's id (unconditional), exactly-once delivery of every unicast and broadcast to every undisturbed client that stayed connected, no foreign-cause disconnect of an undisturbed client, C01/C02 oracles per undisturbed connection. Non-trivial = at least one broadcast and one broadcast_except were judged for delivery, at least one disturbance (hostile datagram accepted, leave, or stall) happened and link faults occurred; distinct = distinct event-log fingerprints. One run in 10 is a HOST-PLAYER run instead (c11_host.rs): one remote and one LOCAL client (new_local_client / process_local_client / disconnect_local_client), channel lists that differ between the directions in 3 of 4 runs (disjoint ids, same ids with rotated kinds, fewer channels upstream), lossless exchange, unicasts, broadcasts and upstream messages of 24..5000 bytes; in 2 of 3 runs the local client disconnects itself, is closed with disconnect_local_client and opened again under the same id; every obtained message must have been addressed to that client on that channel (once on reliable channels, in order on ordered ones), nobody may end up disconnected, the closed local session must be gone, and after 30 quiet ticks every reliable message must have been obtained.",
     assumptions: &[
         "every message is >= 24 bytes so that it carries its address (connection / 0xFF for broadcast + flags, direction, channel, index) in its header",
         "sessions use fresh client ids (re-use of an id is C10/C12 matter)",
@@ -609,6 +609,19 @@ impl Star {
     }
 
     fn join(&mut self, out: &mut Outcome) {
+        // now and then the "transport" reports a connect for an id that is connected already (a duplicate report, an
+        // application that adds its players twice): documented as a no-op, the live connection is not disturbed
+        if self.r.chance(1, 5) {
+            let connected: Vec<usize> = (0..self.n()).filter(|k| self.server_connected(*k)).collect();
+            if !connected.is_empty() {
+                let k = *self.r.pick(&connected);
+                let id = self.sim.ids[k];
+                self.sim.server.add_connection(id);
+                while self.sim.server.get_event().is_some() {}
+                out.count("add_connection_for_an_id_that_is_connected");
+                self.sim.log(format!("t{} add_connection({}) again (conn {} is connected)", self.sim.tick, id, k));
+            }
+        }
         if self.n() >= 14 {
             return;
         }
